@@ -19,7 +19,7 @@ func init() {
 		Text: "a pointer handed to a per-row user callback inside a loop is never the address of a variable that lives across iterations: built-ins such as function.StrS and function.ConcatS return their argument, so a reused cell makes every row alias the last one",
 		Run:  runR53})
 	register(&Rule{ID: "R54", Name: "TABLE-PTR-LOCAL", Floor: 1,
-		Text: "the address of a hash-table entry (an element of a []tableEntry) is only held in local variables of the function that computed it: it is never stored into a struct field, a global or a heap cell, because growing the table replaces the entries slice and such a pointer would keep writing into the discarded table",
+		Text: "the address of a hash-table entry (an element of a []tableEntry) is only held in local variables of the function that computed it, or of the unexported caller it is returned to (which must not grow the table afterwards): it is never stored into a struct field, a global or a heap cell, because growing the table replaces the entries slice and such a pointer would keep writing into the discarded table",
 		Run:  runR54})
 	register(&Rule{ID: "R55", Name: "NULL-OPTION", Floor: 2,
 		Text: "every Column.Comparable built for Distinct/GroupBy receives the caller's groupby.Null option as its equalNull argument (traced through the helper's parameter to a load of Config.GroupByNull at every call site); only Sort passes a constant",
@@ -193,7 +193,32 @@ func runR54(c *Ctx) {
 					case *ssa.MakeInterface, *ssa.MapUpdate:
 						bad = p.instrPos(r)
 					case *ssa.Return:
-						bad = p.instrPos(r)
+						// handing the pointer back to the (unexported, same-package) caller is fine when every
+						// caller in turn only uses it locally and does not grow the table while holding it
+						f := t.Parent()
+						if f.Object() != nil && f.Object().Exported() {
+							bad = p.instrPos(r)
+							continue
+						}
+						for _, caller := range p.FuncsIn("internal/grouper") {
+							eachInstr(caller, func(i2 ssa.Instruction) {
+								call, ok := i2.(*ssa.Call)
+								if !ok || call.Call.StaticCallee() != f {
+									return
+								}
+								walk(call, d+1)
+								// no call of a function that replaces the entries slice after this point in the caller
+								for _, blk := range reachableAvoiding(call.Block(), nil) {
+									for _, i3 := range blk.Instrs {
+										if c3, ok := i3.(*ssa.Call); ok && c3 != call {
+											if callee := c3.Call.StaticCallee(); callee != nil && callee.Pkg == f.Pkg && writesEntriesField(callee) && (blk != call.Block() || instrAfter(call, c3)) {
+												bad = p.instrPos(c3)
+											}
+										}
+									}
+								}
+							})
+						}
 					}
 				}
 			}
@@ -2306,4 +2331,33 @@ func overriddenUnder(call *ssa.Call, cond func(b *ssa.BasicBlock) bool) bool {
 		}
 	}
 	return n > 0
+}
+
+// writesEntriesField: the function assigns the table's entries slice (grow).
+func writesEntriesField(fn *ssa.Function) bool {
+	hit := false
+	eachInstr(fn, func(in ssa.Instruction) {
+		if st, ok := in.(*ssa.Store); ok {
+			if fa, ok := st.Addr.(*ssa.FieldAddr); ok && isEntriesSlice(deref(fa.Type())) {
+				hit = true
+			}
+		}
+	})
+	return hit
+}
+
+// instrAfter: b comes after a in the same block.
+func instrAfter(a, b ssa.Instruction) bool {
+	if a.Block() != b.Block() {
+		return false
+	}
+	seenA := false
+	for _, in := range a.Block().Instrs {
+		if in == a {
+			seenA = true
+		} else if in == b {
+			return seenA
+		}
+	}
+	return false
 }
